@@ -696,6 +696,20 @@ def np_norm(ex, args, kwargs, node):
     v = args[0]
     if isinstance(v, (list, tuple)):
         v = to_small(ex, v)
+    if isinstance(v, Arr) and kwargs.get("axis") == -1 and kwargs.get("keepdims") is True and v.rank >= 1:
+        # Euclidean norm along the last axis of a symbolic array: an uninterpreted non-negative function of the value
+        # sequence; zero only for an all-zero sequence is NOT assumed (division by it is the caller's business)
+        F = z3.Function("norm_last_axis", z3.ArraySort(V.INT, V.REAL), V.INT, V.REAL)
+        t = z3.Int(fresh_name("t"))
+        n = v.shape[-1]
+
+        def cell(*idx):
+            return F(z3.Lambda([t], to_z3(v.sel(*idx[:-1], t), "real")), to_z3(n, "int"))
+        r = Arr.from_lambda(list(v.shape[:-1]) + [1], "real", cell)
+        idx = [z3.Int(fresh_name("i")) for _ in r.shape]
+        ex.assume(z3.ForAll(idx, r.sel(*idx) >= 0) if idx else r.sel() >= 0)
+        r.ghost["owner"] = "fresh"
+        return r
     if not isinstance(v, Small) or v.rank != 1:
         raise Unsupported("norm of non-small vector")
     sq = None
